@@ -532,29 +532,10 @@ func (p *TxPool) wash(
 	if err != nil {
 		return executables, removed, err
 	}
-	needPriorityGasPriceUpdate := func() bool {
-		if !headBlockChanged {
-			return false
-		}
-
-		currentBaseFee := headSummary.Header.BaseFee()
-		if currentBaseFee == nil {
-			return false
-		}
-		parentBlock, err := p.repo.GetBlock(headSummary.Header.ParentID())
-		if err != nil {
-			logger.Warn("failed to get parent block for baseFee comparison", "err", err)
-			// Fallback: assume baseFee might have changed if we can't check
-			return true
-		}
-		parentBaseFee := parentBlock.Header().BaseFee()
-		if parentBaseFee == nil {
-			// Transitioning into GALACTICA, we need to recompute the priority gas price
-			return true
-		}
-
-		return parentBaseFee.Cmp(currentBaseFee) != 0
-	}()
+	// The priority gas price depends on the base fee of the NEXT block (baseFee above, derived from the head) and on the
+	// head's number (proved work expires): both may change whenever the head changes, also when the head's own base fee
+	// equals its parent's.
+	needPriorityGasPriceUpdate := headBlockChanged && baseFee != nil
 
 	for _, txObj := range all {
 		verifWashMark(p, "eval.begin", txObj, nil)
